@@ -306,6 +306,22 @@ func exhaustiveC01(thorough bool, emit func(C01Case) bool) {
 			}
 		}
 	}
+	// thousands of small records, all different (the caller keeps every record), and a
+	// chromosome-sized record followed by a small one
+	{
+		var many []FastaRec
+		for i := 0; i < 3000; i++ {
+			many = append(many, FastaRec{Name: gen.B(fmt.Sprintf("read%05d/1 len=%d", i, 1+i%97)), Seq: gen.Lit(realDNA(1+i%97, i, true, true))})
+		}
+		if !emit(C01Case{Recs: many}) {
+			return
+		}
+		big := []FastaRec{{Name: gen.B("chrM"), Seq: gen.Lit(realDNA(70001, 1, true, true))}, {Name: gen.B("chrUn_gl000220"), Seq: gen.Lit(realDNA(59, 2, true, true))},
+			{Name: gen.B("gi|1| a >gi|2| b"), Seq: gen.Lit(realDNA(131073, 3, true, true))}, {Name: gen.B("last"), Seq: gen.Lit([]byte("ACGT"))}}
+		if !emit(C01Case{Recs: big}) || !emit(C01Case{Recs: big, Layout: &FastaLayout{Widths: []int{60}, Blanks: []int{0, 1}, CRLF: true}}) {
+			return
+		}
+	}
 	// Very long names (beyond bufio's 4096-byte buffer and beyond 64 KiB).
 	for _, n := range []int{4094, 4095, 4096, 4097, 8192, 65536, 70000} {
 		name := bytes.Repeat([]byte("n>m "), n/4+1)[:n]
